@@ -33,6 +33,11 @@ def letters_for(cfg):
         L['fin'] = (['fin'] + ['drop'] * R, [])
         L['invalid'] = (['garbage'], [])
         L['connect-refused'] = ([], ['refused'] * (R + 1))
+        L['connect-unreachable'] = ([], ['unreachable'] * (R + 1))
+        if R:
+            # the first transmission is lost, re-establishing the connection fails (each way a connect can fail)
+            for o in ('refused', 'unreachable', 'hang'):
+                L[f'drop+reconnect-{o}'] = (['drop'] * (R + 1), ['ok'] + [o] * R)
         L['valid+fin'] = (['valid+fin'], [])
     L['caller-cancels@.5T'] = 'cancel', 0.5 * cfg['T']
     if R:
